@@ -23,14 +23,22 @@ from leanbuild import lean_obligations
 
 SOUP = list("*_`~[]()<>!#-+=|\\:\"'{}%&;.,/ \n\t") + ["\r\n", "\r", "\x0b", "\x0c", "\x1c", "\x85", " ", " ", "é", "中", "\U0001F600", "\x01", "\x7f",
                                                       "```", "~~~", "---", "***", "> ", "- ", "1. ", "    ", "[^1]", "[^1]: ", "{%", "%}", "{{", "}}", "<!--", "-->", "http://",
-                                                      "www.", "&amp;", "&#", "\\\n", "  \n", "| a | b |\n|---|---|\n"]
+                                                      "www.", "&amp;", "&#", "\\\n", "  \n", "| a | b |\n|---|---|\n",
+                                                      "\x00", "\x00AC0\x00", "\x00AC7\x00", "\x00AC", "`c`", "[l](u)", "{% t %}", "[^a.b]:", "[^a b]:", "[^n1]: "]
 PUMPS = [
     ("", "a ", ""), ("", "*a ", ""), ("", "[", ""), ("", "[a](", ""), ("", "`", ""), ("", "` a", ""), ("", "{% a ", ""), ("", "<!-- ", ""),
 ("", "- a\n", ""), ("", "  - a\n", ""), ("", "1. a\n\n", ""), ("", "\\", ""), ("", "a\\\n", ""), ("", "<a ", ">"), ("", "**a** ", ""),
     ("", "| a ", "|\n|---|\n"), ("", "a. B", ""), ("", "\"a\" ", ""), ("", "... ", ""), ("", "[^a] ", "\n\n[^a]: x\n"), ("", "{{ a }}{{ /a }}", ""),
     ("", "a\n", ""), ("", "\n", ""), ("```\n", "```` \n", "```\n"), ("", "![", ""), ("", "<http://a.b> ", ""), ("", "www.a.b/c ", ""), ("", "~a~ ", ""),
     ("---\n", "a: b\n", "---\nbody\n"), ("", "\t", "x"), ("", "&amp;", ""),
+    # around the atomic-construct patterns: unmatched openers followed by escapes / nested openers
+    ("[", "\\", ""), ("[a", "\\]", ""), ("[", "\\[", "]"), ("`", "\\`", ""), ("<a ", "\\\"", ">"), ("{% ", "\\%", ""), ("[a](", "\\)", ""),
+    ("[a](", "(", ""), ("![", "\\", "]"), ("[", "]", "("), ("<!-- ", "-", ""), ("{{ ", "}", ""), ("x ", "<", ""), ("[a](u \"", "\\\"", ""),
 ]
+
+FN_LABELS = ["1", "a.b", "a b", "n1", "note-1", "a*b", "x(y)", "é", "+", "a.b.c.d", "a?", "a|b", "^", "a$"]
+FN_SEPS = ["\t", " \t", "  \t", "   \t", "\t\t", " ", "   ", "\t ", ""]
+FN_BODIES = ["x", "x\n\ty", "- a", "\tcode", "x\n\n    more", ""]
 
 
 class Timeout(Exception):
@@ -82,7 +90,9 @@ def well_formed(ctx: Ctx, text: str, o: dict, out, err, secs: float, limit: floa
         return
     if not o["plaintext"]:
         if not out.endswith("\n"):
-            empty_item = re.fullmatch(r"\s*(?:[-*+]|\d+[.)])?\s*", text.replace("\x00", "")) is not None or out == ""
+            # attributed to the empty-item finding only if every non-blank line of the input is nothing but list markers
+            lines = [l for l in re.sub(r"[^\S\n]|\r", " ", text.replace("\x00", "")).split("\n") if l.strip()]
+            empty_item = bool(lines) and all(re.fullmatch(r"[ \t>]*(?:(?:[-*+]|\d{1,9}[.)])[ \t]*)+", l) for l in lines)
             ctx.fail("ENDS_NL: Markdown-mode result does not end in a newline", case, repr(out[-40:]),
                      known="C01-empty-list-item" if empty_item else None)
             return
@@ -125,6 +135,27 @@ def monitor(ctx: Ctx, n_soup: int, n_docs: int, limit: float) -> None:
         ctx.count(["soup", text, str(o)], nontrivial=len(text) > 3, sample=(i % 1999 == 5))
         ctx.bump("soup")
         well_formed(ctx, text, o, out, err, secs, limit)
+    stuck = 0
+    for lab in FN_LABELS:
+        for sep in FN_SEPS:
+            for body in FN_BODIES:
+                if stuck >= 3:
+                    break
+                lead = ("", "> ", "- ", " ", "1. ", "> > ", "   ")[(len(lab) + len(sep) + len(body)) % 7]
+                text = f"ref[^{lab}]\n\n{lead}[^{lab}]:{sep}{body}\n"
+                o = dict(width=88, plaintext=False, semantic=False, cleanups=False, smartquotes=False, ellipses=False)
+                out, secs, err = call(lambda: reformat_text(text, **{k: v for k, v in o.items()}), min(limit, 3))
+                ctx.count(["footnote", text], nontrivial=True)
+                ctx.bump("footnote-def")
+                stuck += err == "timeout"
+                well_formed(ctx, text, o, out, err, secs, min(limit, 3))
+    for t in ("", "\n", "\t", "\r\n", " \n \n", "\x0c", "\u00a0", "---\n---\n"):
+        for pt in (False, True):
+            o = dict(width=88, plaintext=pt, semantic=True, cleanups=True, smartquotes=True, ellipses=True)
+            out, secs, err = call(lambda: reformat_text(t, **o), limit)
+            ctx.count(["empty", t, pt], nontrivial=False)
+            ctx.bump("empty-input")
+            well_formed(ctx, t, o, out, err, secs, limit)
     for i in range(n_docs):
         dirty = i % 2 == 0
         text = mdgen.gen_document(rng, quotes=True, ellipses=True, tags=True, html=True, hazards=dirty, clean=not dirty, frontmatter=True, bold_headings=True)
